@@ -19,11 +19,14 @@ CROSS = {"C01-C": ["C08"], "C08-C": ["C02", "C06"], "C16-C": ["C04"], "C05-C": [
          # round 5 (I, J)
          "C04-J": ["C19"], "C10-I": ["C04", "C16"], "C16-J": ["C04", "C10"], "C04-I": ["C10", "C16"], "C12-I": ["C13"], "C07-I": ["C19"],
          # round 6 (K, L)
-         "C01-K": ["C17"], "C02-K": ["C06", "C17"], "C02-L": ["C10", "C17"], "C16-L": ["C04"], "C04-K": ["C10", "C16"], "C19-K": ["C04"]}
+         "C01-K": ["C17"], "C02-K": ["C06", "C17"], "C02-L": ["C10", "C17"], "C16-L": ["C04"], "C04-K": ["C10", "C16"], "C19-K": ["C04"],
+         # round 7 (M, N)
+         "C08-N": ["C02", "C06"], "C08-M": ["C19"], "C07-N": ["C19"], "C17-N": ["C19"], "C12-M": ["C13"], "C16-M": ["C04", "C10"]}
 THOROUGH_ONLY = {("C16-B", "C16"), ("C16-D", "C16")}
+NOT_EXPECTED = {"C06-N", "C09-N"}   # kept with meta.json "expected": "not detected" (BUILD_REPORT.md, round 7)
 # C19-E / C19-F change the refinement functions themselves (the subject of C08 / C07),
 # which C19 takes as given (it checks that each iteration uses the refinement of the previous result)
-OWN_BY_OTHER = {"C19-E": "C08", "C19-F": "C07", "C02-H": "C14"}   # C02-H: a compensation slot shared with the integral (C14's subject)
+OWN_BY_OTHER = {"C19-E": "C08", "C19-F": "C07", "C02-H": "C14", "C19-N": "C08", "C04-N": "C12", "C20-M": "C18"}   # C02-H: a compensation slot shared with the integral (C14's subject)
 PREFIX = {"5240915": ["C15"], "ac56e79": ["C15"], "bb5946d": ["C12"], "08987f4": ["C09"], "47037e0": ["C07"], "dfee5c7": ["C08"],
           "84d9fba": ["C05", "C03"], "4d363c6": ["C18"], "d91dcdf": ["C11"], "1c25063": ["C07"], "7c3b427": ["C05", "C03"]}
 
@@ -65,6 +68,8 @@ def main():
             v, what = f.result()
             results.append((j[0], j[1], j[2], j[5], v, what))
             print(j[0], j[1], j[2], v, flush=True)
+    results = [r for r in results if not (r[0] == "seeded" and r[1] in NOT_EXPECTED and r[4] == "ok")] + \
+              [(r[0], r[1], r[2], r[3], "ok (expected: not detected)", r[5]) for r in results if r[0] == "seeded" and r[1] in NOT_EXPECTED and r[4] == "ok"]
     results.sort()
     path = os.path.join(ROOT, "seeded", "RESULTS.md")
     old = open(path).read() if os.path.exists(path) else ""
@@ -75,7 +80,7 @@ def main():
                 "| kind | change | check | tier | verdict | first rejected event |\n|---|---|---|---|---|---|\n")
         for r in results:
             f.write("| %s | %s | %s | %s | %s | %s |\n" % (r[0], r[1], r[2], r[3], r[4], r[5].replace("|", "/")))
-    bad = [r for r in results if (r[0] in ("seeded", "prefix") and r[2] == OWN_BY_OTHER.get(r[1], r[1][:3] if r[0] == "seeded" else r[2]) and r[4] != "VIOLATION")
+    bad = [r for r in results if r[1] not in NOT_EXPECTED and (r[0] in ("seeded", "prefix") and r[2] == OWN_BY_OTHER.get(r[1], r[1][:3] if r[0] == "seeded" else r[2]) and r[4] != "VIOLATION")
            or (r[0] == "benign" and r[4] != "ok")]
     print("unexpected:", bad)
 
